@@ -155,7 +155,7 @@ func rank(class string) int {
 
 func c12(c *core.Ctx, r *core.Report) {
 	ro := c.Roles()
-	r.Explanation = "C12 ordering contract: (R1-R3) SortOrderedComponents is interpreted abstractly on every participant list up to the bound over {priority-ordered, ordered, unordered, priority-without-order} x Order in {-1,0,1} and the result compared with the contract (permutation, class grouping, non-decreasing Order); (R4) sort2.Slice maps the element comparator onto sort.Slice indexes faithfully; (R5) every loop that invokes post-processors, runners or loaders iterates, forward and synchronously, a slice with sorter provenance. Decides the contract's shape and its use at all call sites; does not decide sort.Slice itself or user participants' Order() purity."
+	r.Explanation = "C12 ordering contract: (R1-R3) SortOrderedComponents is interpreted abstractly on every participant list up to the bound over {priority-ordered, ordered, unordered, priority-without-order} x Order in {-1,0,1} and the result compared with the contract (permutation, class grouping, non-decreasing Order, and the comparator handed to the sort is the strict order on Order values - equal keys compare false both ways); (R4) sort2.Slice maps the element comparator onto sort.Slice indexes faithfully; (R5) every loop that invokes post-processors, runners or loaders iterates, forward and synchronously, a slice with sorter provenance. Decides the contract's shape and its use at all call sites; does not decide sort.Slice itself or user participants' Order() purity."
 	r.Assumptions = []string{"sort.Slice / sort.SliceStable sort with respect to the comparator they are given (modelled as a stable insertion sort)", "Order() of a participant is a pure function", "reflect-free: type tests answer from static class"}
 	sorter := ro.Sorter
 	if sorter == nil {
